@@ -382,11 +382,29 @@ fn compare<T: Sc>(
                             let (vx, vy): (Vec<T>, Vec<T>) = (to_t(x), to_t(y));
                             let fin = |v: f64| if v.is_finite() { v.abs() } else { 0.0 };
                             let scale = vx.iter().chain(vy.iter()).map(|v| fin(v.f())).fold(0.0f64, f64::max).max(world.weighted_y().iter().map(|v| fin(v.f())).fold(0.0f64, f64::max));
+                            // ... plus the magnitude of the terms Phi_w.C the residuals are formed from
+                            // (coefficients from an independent least-squares solution at these
+                            // parameters; huge cancelling coefficients of an ill-conditioned trial
+                            // step carry their rounding error into the residuals)
+                            let scale = match &walk_params {
+                                Some(pb) => {
+                                    let pv: Vec<T> = to_t(pb);
+                                    let phiw = crate::refmath::phi_w::<T>(&world.spec, &world.x, world.w.as_ref(), &pv);
+                                    let am = crate::refmath::M64::from_t(&phiw);
+                                    let ym = crate::refmath::M64::from_t(&world.weighted_y());
+                                    let pmax = phiw.iter().map(|v| fin(v.f())).fold(0.0f64, f64::max);
+                                    match crate::refmath::lstsq(&am, &ym, 1e-13) {
+                                        Some(c) => scale + pmax * world.m() as f64 * c.d.iter().map(|v| fin(*v)).fold(0.0f64, f64::max),
+                                        None => f64::INFINITY,
+                                    }
+                                }
+                                None => f64::INFINITY,
+                            };
                             let tol = if T::NAME == "f64" { 1e-9 } else { 1e-4 };
                             let ok = vx.len() == vy.len()
                                 && vx.iter().zip(vy.iter()).all(|(p, q)| {
                                     let (p, q) = (p.f(), q.f());
-                                    p == q || !p.is_finite() || !q.is_finite() || (p - q).abs() <= tol * scale + 8.0 * T::tiny()
+                                    p == q || !p.is_finite() || !q.is_finite() || !scale.is_finite() || (p - q).abs() <= tol * scale + 8.0 * T::tiny()
                                 });
                             let verdict = Some(ok);
                             let _ = &walk_params;
